@@ -223,7 +223,10 @@ Record site_url := { s_parts : parts; s_verdict : verdict; s_answers : list (ans
 Record fetch_in := {
   f_vkind : vkind;
   f_retries : Z; f_redirects : Z; f_maxfetch : Z; f_maxdecomp : Z;
-  f_site : list site_url;          (* URL number k is the k-th entry; the location URL is number 0 *)
+  f_site : list site_url;          (* URL number k is the k-th entry; the location URL is number 0.
+                                      Entries are distinct FULL URLs: two of them may share every public
+                                      part (scheme, host, path) and differ in user info / query / fragment
+                                      only; verdict and answers are per entry, i.e. per full URL *)
   f_secrets2 : list bytes          (* the secrets of the second run (same case, other secrets) *)
 }.
 (* fetchSimple (the plain-GET fall back of FetchWithParallelRangeRequests): one URL,
